@@ -12,6 +12,8 @@ sys.dont_write_bytecode = True
 HERE = os.path.dirname(os.path.abspath(__file__))
 sys.path.insert(0, HERE)
 os.environ.setdefault("PYTHONDONTWRITEBYTECODE", "1")
+for _v in ("OMP_NUM_THREADS", "MKL_NUM_THREADS"):      # the cases are small: more threads only oversubscribe the machine when checks run side by side
+    os.environ.setdefault(_v, "4")
 
 
 def main():
